@@ -1,15 +1,19 @@
 #!/venv/bin/python
-"""BOUNDED stand-in for C05 (never counted as proved): every array of length
+"""BOUNDED stand-in for C05 (never counted as proved): (a) every array of length
 1..3 over boundary values of each dtype goes through the real compress() and
 the real BinaryCIFData serialise/deserialise; the decoded array must equal the
 input (integers exactly, floats within the relative tolerance, non-finite
-values kept or rejected)."""
+values kept or rejected); (b) every encoding class and typical chains applied directly
+(encode_stepwise / decode_stepwise and serialised encodings) to integer arrays of
+length 0..6 over boundary values and runs, float arrays and string arrays."""
 import itertools
 import json
 import sys
 import warnings
 
 import numpy as np
+sys.path.insert(0, "/verif")
+from bounded.common import Run
 from biotite.structure.io.pdbx import compress
 from biotite.structure.io.pdbx.bcif import BinaryCIFData
 
@@ -52,38 +56,127 @@ def check(arr, tol=None):
     return None
 
 
-def main():
-    known = json.load(open("/verif/known_findings.json"))
-    evals, fails, samples = 0, [], []
-    for dt in (np.float32, np.float64):
-        for n in (1, 2, 3):
-            for combo in itertools.product(FLOATS, repeat=n):
-                arr = np.array(combo, dtype=dt)
-                evals += 1
-                f = check(arr)
-                if f:
-                    fails.append({"dtype": dt.__name__, "array": [repr(x) for x in combo], "what": f})
-                elif len(samples) < 3 and n == 3:
-                    samples.append({"dtype": dt.__name__, "array": [repr(x) for x in combo]})
-    # magnitudes and tolerances: the relative tolerance passed to compress() must hold for small and large values alike
-    SMALL = [1.321746e-4, 7.7123456e-3, 1.004899415, 0.25, 123.456789012, 3.3333333333e-6]
-    for tol in (1e-3, 1e-6, 1e-10):
-        for combo in itertools.product(SMALL, repeat=2):
-            arr = np.array(combo + (combo[0] * 3,), dtype=np.float64)
-            evals += 1
-            f = check(arr, tol)
-            if f:
-                fails.append({"dtype": "float64", "array": [repr(x) for x in arr.tolist()], "tolerance": tol, "what": f})
-    for dt, vals in INTS.items():
-        for n in (1, 2, 3):
-            for combo in itertools.product(vals, repeat=n):
-                arr = np.array(combo, dtype=dt)
-                evals += 1
-                f = check(arr)
-                if f:
-                    fails.append({"dtype": dt.__name__, "array": list(map(int, combo)), "what": f})
-    print(json.dumps({"evaluations": evals, "failures": fails[:40], "n_failures": len(fails), "samples": samples}))
+
+R = Run("C05", "(a) all arrays of length 1..3 over boundary values per dtype through the real compress() and BinaryCIFData "
+               "serialise/deserialise (floats within the requested rtol, ints exact, non-finite kept or rejected); (b) each encoding class and "
+               "5 chains directly on integer arrays of length 0..6 (boundary values, runs), float and string arrays")
+
+for dt in (np.float32, np.float64):
+    for n in (1, 2, 3):
+        for combo in itertools.product(FLOATS, repeat=n):
+            arr = np.array(combo, dtype=dt)
+            R.check("compress() round trip within tolerance; non-finite kept or rejected", f"compress {dt.__name__}",
+                    {"dtype": dt.__name__, "array": [repr(x) for x in combo]}, lambda arr=arr: check(arr))
+# magnitudes and tolerances: the relative tolerance passed to compress() must hold for small and large values alike
+SMALL = [1.321746e-4, 7.7123456e-3, 1.004899415, 0.25, 123.456789012, 3.3333333333e-6]
+for tol in (1e-3, 1e-6, 1e-10):
+    for combo in itertools.product(SMALL, repeat=2):
+        arr = np.array(combo + (combo[0] * 3,), dtype=np.float64)
+        R.check("compress() round trip within tolerance; non-finite kept or rejected", f"compress float64 tol={tol}",
+                {"dtype": "float64", "array": [repr(x) for x in arr.tolist()], "tolerance": tol}, lambda arr=arr, tol=tol: check(arr, tol))
+for dt, vals in INTS.items():
+    for n in (1, 2, 3):
+        for combo in itertools.product(vals, repeat=n):
+            arr = np.array(combo, dtype=dt)
+            R.check("compress() round trip exact for integers", f"compress {dt.__name__}",
+                    {"dtype": dt.__name__, "array": list(map(int, combo))}, lambda arr=arr: check(arr))
 
 
-if __name__ == "__main__":
-    main()
+# ---- (b) the encodings applied directly -----------------------------------------------------
+
+from biotite.structure.io.pdbx import encoding as E
+
+
+def int_arrays(dt):
+    vals = INTS[dt]
+    lo, hi = vals[0], vals[-1]
+    mid = [v for v in (0, 1, 5, 7) if lo <= v <= hi]
+    out = [[], [lo], [hi], [mid[0]] * 4, [hi, hi, lo, lo, lo], [lo, hi, lo, hi], mid + mid[::-1], [mid[-1]] * 3 + [lo] + [mid[-1]] * 2]
+    for n in (2, 3):
+        out += [list(c) for c in itertools.product(vals, repeat=n)][:: (1 if R.thorough else 3)]
+    return [np.array(a, dtype=dt) for a in out]
+
+
+def chain_roundtrip(arr, make_chain, exact=True, atol=0.0):
+    encs = make_chain()
+    try:
+        enc = E.encode_stepwise(arr, encs)
+    except (ValueError, OverflowError, TypeError) as e:
+        if arr.size == 0:
+            return "empty array rejected", f"empty array rejected by encode: {type(e).__name__}: {e}"
+        return None                      # refusing a value the representation cannot hold is allowed
+    except IndexError as e:
+        if arr.size == 0:
+            return "empty array rejected", f"empty array rejected by encode: {type(e).__name__}: {e}"
+        raise
+    # serialised encodings must describe the same chain
+    again = [E.deserialize_encoding(e.serialize()) for e in encs]
+    back = np.asarray(E.decode_stepwise(enc, again))
+    if back.shape != arr.shape:
+        return f"decoded shape {back.shape} != {arr.shape}"
+    if exact:
+        if back.dtype.kind in "iu" and arr.dtype.kind in "iu":
+            ok = np.array_equal(back.astype(object), arr.astype(object))
+        else:
+            ok = back.tolist() == arr.tolist()
+        return None if ok else f"decoded {back.tolist()[:8]} != {arr.tolist()[:8]}"
+    err = np.abs(back.astype(np.float64) - arr.astype(np.float64))
+    return None if np.all(err <= atol) else f"decoded {back.tolist()[:8]} (error {err.max():.3g} > {atol:.3g})"
+
+
+INT_CHAINS = {
+    "ByteArray": lambda: [E.ByteArrayEncoding()],
+    "RunLength+ByteArray": lambda: [E.RunLengthEncoding(), E.ByteArrayEncoding()],
+    "Delta+ByteArray": lambda: [E.DeltaEncoding(), E.ByteArrayEncoding()],
+    "IntegerPacking1+ByteArray": lambda: [E.IntegerPackingEncoding(byte_count=1), E.ByteArrayEncoding()],
+    "IntegerPacking2+ByteArray": lambda: [E.IntegerPackingEncoding(byte_count=2), E.ByteArrayEncoding()],
+    "Delta+RunLength+IntegerPacking1+ByteArray": lambda: [E.DeltaEncoding(), E.RunLengthEncoding(), E.IntegerPackingEncoding(byte_count=1), E.ByteArrayEncoding()],
+    "RunLength+IntegerPacking2+ByteArray": lambda: [E.RunLengthEncoding(), E.IntegerPackingEncoding(byte_count=2), E.ByteArrayEncoding()],
+}
+for dt in INTS:
+    for arr in int_arrays(dt):
+        for name, mk in INT_CHAINS.items():
+            if "IntegerPacking" in name and "Delta" not in name and "RunLength" not in name and dt not in (np.int32,):
+                continue        # integer packing takes 32-bit input; other widths enter through a preceding encoding
+            R.check("decode(encode(x)) == x for integer arrays (or the value is rejected)", f"{name} {dt.__name__}",
+                    {"dtype": dt.__name__, "array": arr.tolist(), "chain": name}, lambda arr=arr, mk=mk: chain_roundtrip(arr, mk))
+
+FLOAT_ARRS = [[], [0.0], [1.5, -2.5, 1.25], [123.456, 123.457, -0.001], [1e-3] * 4, [999999.0, -999999.0]]
+for dt in (np.float32, np.float64):
+    for a in FLOAT_ARRS:
+        arr = np.array(a, dtype=dt)
+        for factor in (1, 100, 1000):
+            R.check("fixed point: decoded within half a step (or rejected)", f"FixedPoint {dt.__name__}",
+                    {"dtype": dt.__name__, "array": a, "factor": factor},
+                    lambda arr=arr, factor=factor: chain_roundtrip(
+                        arr, lambda: [E.FixedPointEncoding(factor=factor), E.DeltaEncoding(), E.IntegerPackingEncoding(byte_count=2), E.ByteArrayEncoding()],
+                        exact=False, atol=0.5 / factor * (1 + 1e-6) + float(np.abs(arr).max(initial=0)) * float(np.finfo(dt).eps) * 4))
+        # documented behaviour: a value is sorted into the next bin boundary (searchsorted), so the error is below one bin width
+        R.check("interval quantization: decoded within one bin width inside the interval", f"IntervalQuantization {dt.__name__}",
+                {"dtype": dt.__name__, "array": a},
+                lambda arr=arr: chain_roundtrip(np.clip(arr, -10, 10), lambda: [E.IntervalQuantizationEncoding(-10, 10, 2001), E.ByteArrayEncoding()],
+                                                exact=False, atol=0.01 * (1 + 1e-5) + 1e-5))
+# values a 32-bit fixed point cannot hold must not be silently altered
+for v in (3e9, -3e9, 2.2e7):
+    def overflow_case(v=v):
+        arr = np.array([1.0, v], dtype=np.float64)
+        try:
+            enc = E.FixedPointEncoding(factor=1000)
+            back = enc.decode(enc.encode(arr))
+        except (ValueError, OverflowError):
+            return None
+        if abs(float(back[1]) - v) > 1e-3 * abs(v):
+            return "fixed-point overflow", f"FixedPointEncoding(factor=1000) turned {v} into {float(back[1])} without an error"
+        return None
+    R.check("values the target cannot hold are rejected or kept, never silently altered", "FixedPoint overflow", {"value": v, "factor": 1000}, overflow_case)
+
+STR_ARRS = [[], [""], ["a", "a", "b"], ["", "x", ""], ["\u00e4\u00f6", "\u4e2d", "a"], ["long" * 50, "s"], ["a b", "c\td", "e\nf"]]
+for a in STR_ARRS:
+    arr = np.array(a, dtype="U")
+    R.check("string arrays decode exactly", "StringArray", {"array": a},
+            lambda arr=arr: chain_roundtrip(arr, lambda: [E.StringArrayEncoding()]))
+    R.check("string arrays decode exactly", "StringArray with encoded offsets", {"array": a},
+            lambda arr=arr: chain_roundtrip(arr, lambda: [E.StringArrayEncoding(
+                data_encoding=[E.RunLengthEncoding(), E.ByteArrayEncoding()],
+                offset_encoding=[E.DeltaEncoding(), E.IntegerPackingEncoding(byte_count=1), E.ByteArrayEncoding()])]))
+R.finish()
